@@ -657,6 +657,468 @@ Proof.
     field. lra.
 Qed.
 
+(* ================= C06: convexity of the elliptic contact block, KKT for mixed systems ================= *)
+(* 2-D picture of the elliptic cost in (N, T), T >= 0:  s psi = 0 (top), (A^2+B^2)/2 (bottom), A^2/2 (middle)
+   with A = N - mu T, B = mu N + T, s = 1 + mu^2 *)
+Definition zone (mu N T : R) : nat :=   (* 0 top, 1 bottom, 2 middle, for T >= 0 *)
+  if Rle_dec (mu * T) N then 0%nat else if Rle_dec (mu * N + T) 0 then 1%nat else 2%nat.
+Definition psi (mu N T : R) : R :=
+  match zone mu N T with 0%nat => 0 | 1%nat => 1/2 * (N * N + T * T) | _ => 1/2 * (N - mu * T) * (N - mu * T) / (1 + mu * mu) end.
+Definition gN (mu N T : R) : R :=
+  match zone mu N T with 0%nat => 0 | 1%nat => N | _ => (N - mu * T) / (1 + mu * mu) end.
+Definition gT (mu N T : R) : R :=
+  match zone mu N T with 0%nat => 0 | 1%nat => T | _ => - mu * (N - mu * T) / (1 + mu * mu) end.
+
+Lemma gT_nonneg mu N T : 0 < mu -> 0 <= T -> 0 <= gT mu N T.
+Proof.
+  intros Hmu HT. unfold gT, zone. destruct (Rle_dec (mu * T) N); [lra|]. destruct (Rle_dec (mu * N + T) 0); [lra|].
+  apply Rmult_le_pos; [nra | left; apply Rinv_0_lt_compat; nra].
+Qed.
+
+Lemma psi_convex mu Nx Tx Ny Ty : 0 < mu -> 0 <= Tx -> 0 <= Ty ->
+  psi mu Nx Tx + gN mu Nx Tx * (Ny - Nx) + gT mu Nx Tx * (Ty - Tx) <= psi mu Ny Ty.
+Proof.
+  intros Hmu HTx HTy.
+  set (s := 1 + mu * mu). assert (Hs : 0 < s) by (unfold s; nra).
+  apply Rmult_le_reg_l with s; [exact Hs|].
+  set (Ax := Nx - mu * Tx). set (Bx := mu * Nx + Tx). set (Ay := Ny - mu * Ty). set (By := mu * Ny + Ty).
+  assert (Ex : s * (Nx * Nx + Tx * Tx) = Ax * Ax + Bx * Bx) by (unfold s, Ax, Bx; ring).
+  assert (Ey : s * (Ny * Ny + Ty * Ty) = Ay * Ay + By * By) by (unfold s, Ay, By; ring).
+  assert (Exy : s * (Nx * (Ny - Nx) + Tx * (Ty - Tx)) = Ax * (Ay - Ax) + Bx * (By - Bx)) by (unfold s, Ax, Bx, Ay, By; ring).
+  unfold psi, gN, gT, zone. fold s.
+  destruct (Rle_dec (mu * Tx) Nx) as [tx|tx]; destruct (Rle_dec (mu * Ty) Ny) as [ty|ty];
+  try destruct (Rle_dec (mu * Nx + Tx) 0) as [bx|bx]; try destruct (Rle_dec (mu * Ny + Ty) 0) as [by_|by_].
+  all: assert (HAx : Ax = Nx - mu * Tx) by reflexivity; assert (HBx : Bx = mu * Nx + Tx) by reflexivity;
+       assert (HAy : Ay = Ny - mu * Ty) by reflexivity; assert (HBy : By = mu * Ny + Ty) by reflexivity.
+  all: try (replace (s * (1 / 2 * (Ny - mu * Ty) * (Ny - mu * Ty) / s)) with (1/2 * Ay * Ay) by (unfold Ay; field; lra)).
+  all: try (replace (s * (1 / 2 * (Ny * Ny + Ty * Ty))) with (1/2 * (Ay * Ay + By * By)) by lra).
+  all: try (replace (s * (1 / 2 * (Nx * Nx + Tx * Tx) + Nx * (Ny - Nx) + Tx * (Ty - Tx)))
+             with (1/2 * (Ax * Ax + Bx * Bx) + (Ax * (Ay - Ax) + Bx * (By - Bx))) by lra).
+  all: try (replace (s * (1 / 2 * (Nx - mu * Tx) * (Nx - mu * Tx) / s + (Nx - mu * Tx) / s * (Ny - Nx) + - mu * (Nx - mu * Tx) / s * (Ty - Tx)))
+             with (1/2 * Ax * Ax + Ax * (Ay - Ax)) by (unfold Ax, Ay; field; lra)).
+  all: try (assert (0 <= By) by (rewrite HBy; nra)).
+  all: try (assert (SAx : Ax < 0) by lra); try (assert (SAx' : 0 <= Ax) by lra);
+       try (assert (SAy : Ay < 0) by lra); try (assert (SAy' : 0 <= Ay) by lra);
+       try (assert (SBx : Bx <= 0) by lra); try (assert (SBx' : 0 < Bx) by lra);
+       try (assert (SBy : By <= 0) by lra); try (assert (SBy' : 0 < By) by lra).
+  all: clear Ex Ey Exy HAx HBx HAy HBy; clearbody Ax Bx Ay By.
+  all: clear - SAx SAx' SAy SAy' SBx SBx' SBy SBy' || idtac.
+  all: pose proof (Rle_0_sqr (Ax - Ay)) as Q1; pose proof (Rle_0_sqr (Bx - By)) as Q2; unfold Rsqr in Q1, Q2.
+  all: nra.
+Qed.
+Fixpoint dotl (l : list (R * R)) : R := match l with nil => 0 | (u, v) :: r => u * v + dotl r end.
+
+Lemma cauchy_schwarz_sq (l : list (R * R)) :
+  dotl l * dotl l <= sumsq (map fst l) * sumsq (map snd l).
+Proof.
+  induction l as [|[u v] l IH]; simpl; [lra|].
+  set (S := dotl l) in *. set (P := sumsq (map fst l)) in *. set (Q := sumsq (map snd l)) in *.
+  assert (HP : 0 <= P) by apply sumsq_nonneg. assert (HQ : 0 <= Q) by apply sumsq_nonneg.
+  clearbody S P Q.
+  (* 2 S u v <= P v^2 + Q u^2  from S^2 <= P Q *)
+  assert (K : 2 * S * (u * v) <= P * (v * v) + Q * (u * u)).
+  { destruct (Rle_dec (2 * S * (u * v)) 0) as [a|a]; [nra|].
+    assert (0 <= P * (v * v) + Q * (u * u)) by nra.
+    apply Rsqr_incr_0_var; [|assumption]. unfold Rsqr.
+    assert ((2 * S * (u * v)) * (2 * S * (u * v)) <= 4 * (P * Q) * (u * u * (v * v))).
+    { replace (2 * S * (u * v) * (2 * S * (u * v))) with (4 * (S * S) * (u * u * (v * v))) by ring.
+      apply Rmult_le_compat_r; [nra|]. nra. }
+    assert (0 <= (P * (v * v) - Q * (u * u)) * (P * (v * v) - Q * (u * u))) by apply Rle_0_sqr.
+    nra. }
+  nra.
+Qed.
+
+Lemma cauchy_schwarz (l : list (R * R)) :
+  dotl l <= sqrt (sumsq (map fst l)) * sqrt (sumsq (map snd l)).
+Proof.
+  pose proof (cauchy_schwarz_sq l) as H.
+  rewrite <- sqrt_mult by apply sumsq_nonneg.
+  destruct (Rle_dec (dotl l) 0) as [a|a].
+  - eapply Rle_trans; [exact a | apply sqrt_pos].
+  - rewrite <- (sqrt_Rsqr (dotl l)) by lra. apply sqrt_le_1_alt. exact H.
+Qed.
+
+(* ---------- the elliptic contact block: cost and forces through psi ---------- *)
+
+Fixpoint tang_cost (adr0 : Z) (j0 D0 mu : R) (jt fr : list R) (k : nat) (rows : list (R*R*R)) : R :=
+  match rows with
+  | nil => 0
+  | (jk, fk, Dk) :: r => r_cost (@block_row_tangent R ScalarR adr0 j0 D0 mu jt fr k jk fk Dk)
+                         + tang_cost adr0 j0 D0 mu jt fr (S k) r
+  end.
+(* sum_k force_k * (jy_k - jk) *)
+Fixpoint tang_lin (adr0 : Z) (j0 D0 mu : R) (jt fr : list R) (k : nat) (rows : list (R*R*R)) (jy : list R) : R :=
+  match rows, jy with
+  | (jk, fk, Dk) :: r, y :: ry =>
+      r_force (@block_row_tangent R ScalarR adr0 j0 D0 mu jt fr k jk fk Dk) * (y - jk)
+      + tang_lin adr0 j0 D0 mu jt fr (S k) r ry
+  | _, _ => 0
+  end.
+(* (u_k, v_k) = (jk fk, jy_k fk) *)
+Fixpoint uv_pairs (rows : list (R*R*R)) (jy : list R) : list (R * R) :=
+  match rows, jy with
+  | (jk, fk, Dk) :: r, y :: ry => (jk * fk, y * fk) :: uv_pairs r ry
+  | _, _ => nil
+  end.
+Fixpoint rows_with (rows : list (R*R*R)) (jy : list R) : list (R*R*R) :=
+  match rows, jy with
+  | (jk, fk, Dk) :: r, y :: ry => (y, fk, Dk) :: rows_with r ry
+  | _, _ => nil
+  end.
+
+Lemma tang_cost_form adr0 j0 D0 mu jt fr c rows :
+  (forall k jk fk Dk, In (jk, fk, Dk) rows ->
+     r_cost (@block_row_tangent R ScalarR adr0 j0 D0 mu jt fr k jk fk Dk) = c * ((jk * fk) * (jk * fk))) ->
+  forall k, tang_cost adr0 j0 D0 mu jt fr k rows = c * sumsq (map (fun r => row_j r * row_f r) rows).
+Proof.
+  induction rows as [|[[j f] d] rows IH]; intros Hk k; simpl; [ring|].
+  rewrite IH by (intros; apply Hk; right; assumption). rewrite (Hk k j f d) by (left; reflexivity). ring.
+Qed.
+
+Lemma tang_lin_form adr0 j0 D0 mu jt fr c rows :
+  (forall k jk fk Dk, In (jk, fk, Dk) rows ->
+     r_force (@block_row_tangent R ScalarR adr0 j0 D0 mu jt fr k jk fk Dk) = - c * ((jk * fk) * fk)) ->
+  forall jy k, length jy = length rows ->
+    tang_lin adr0 j0 D0 mu jt fr k rows jy
+    = - c * (dotl (uv_pairs rows jy) - sumsq (map (fun r => row_j r * row_f r) rows)).
+Proof.
+  induction rows as [|[[j f] d] rows IH]; intros Hk jy k Hl; destruct jy as [|y jy]; simpl in *; try discriminate; [ring|].
+  rewrite IH by (try (intros; apply Hk; right; assumption); lia).
+  rewrite (Hk k j f d) by (left; reflexivity). ring.
+Qed.
+
+Lemma uv_fst rows jy : length jy = length rows ->
+  map fst (uv_pairs rows jy) = map (fun r => row_j r * row_f r) rows.
+Proof.
+  revert jy. induction rows as [|[[j f] d] rows IH]; intros [|y jy] Hl; simpl in *; try discriminate; [reflexivity|].
+  f_equal. apply IH. lia.
+Qed.
+Lemma uv_snd rows jy : length jy = length rows ->
+  map snd (uv_pairs rows jy) = map (fun r => row_j r * row_f r) (rows_with rows jy).
+Proof.
+  revert jy. induction rows as [|[[j f] d] rows IH]; intros [|y jy] Hl; simpl in *; try discriminate; [reflexivity|].
+  f_equal. apply IH. lia.
+Qed.
+Lemma rows_with_in rows jy jk fk Dk : In (jk, fk, Dk) (rows_with rows jy) -> exists j, In (j, fk, Dk) rows.
+Proof.
+  revert jy. induction rows as [|[[j f] d] rows IH]; intros [|y jy] H; simpl in *; try contradiction.
+  destruct H as [H|H]; [inversion H; subst; eexists; left; reflexivity|].
+  destruct (IH _ H) as [j' Hj]. exists j'. right. exact Hj.
+Qed.
+
+Definition block_cost (adr0 : Z) (j0 D0 mu : R) (rows : list (R*R*R)) : R :=
+  let jt := map (fun r => fst (fst r)) rows in
+  let fr := map (fun r => snd (fst r)) rows in
+  r_cost (@block_row_normal R ScalarR adr0 j0 D0 mu jt fr) + tang_cost adr0 j0 D0 mu jt fr 0 rows.
+
+(* zone of the code coincides with [zone] when T >= 0 *)
+Lemma zone_top mu N T : 0 < mu -> 0 <= T -> (top_zone mu N T <-> zone mu N T = 0%nat).
+Proof.
+  intros Hmu HT. unfold top_zone, zone. destruct (Rle_dec (mu * T) N); split; intros; try reflexivity; try (left; assumption).
+  - destruct H as [H|[H1 H2]]; [contradiction|]. exfalso. apply n. nra.
+  - destruct (Rle_dec (mu * N + T) 0); discriminate.
+Qed.
+Lemma zone_bottom mu N T : 0 < mu -> 0 <= T -> ~ top_zone mu N T -> (bottom_zone mu N T <-> zone mu N T = 1%nat).
+Proof.
+  intros Hmu HT Ht. unfold bottom_zone, zone.
+  destruct (Rle_dec (mu * T) N) as [a|a]; [exfalso; apply Ht; left; exact a|].
+  destruct (Rle_dec (mu * N + T) 0); split; intros; try reflexivity; try (left; assumption); try discriminate.
+  destruct H as [H|[H1 H2]]; [contradiction|]. exfalso. apply n. nra.
+Qed.
+
+Section Block.
+Variables (adr0 : Z) (D0 mu : R).
+Hypotheses (HD : 0 < D0) (Hmu : 0 < mu).
+Let kap := D0 / (mu * mu).
+
+Definition rows_ok (rows : list (R*R*R)) : Prop :=
+  forall jk fk Dk, In (jk, fk, Dk) rows -> 0 < fk /\ Dk * (mu * mu) = D0 * (fk * fk).
+
+(* closed forms of cost, normal force and the tangential linear term, in every zone *)
+Lemma block_forms j0 rows :
+  rows_ok rows ->
+  let jt := map (fun r => fst (fst r)) rows in
+  let fr := map (fun r => snd (fst r)) rows in
+  let TT := sumsq (map (fun r => row_j r * row_f r) rows) in
+  let N := j0 * mu in let T := sqrt TT in
+  block_cost adr0 j0 D0 mu rows = kap * psi mu N T /\
+  r_force (@block_row_normal R ScalarR adr0 j0 D0 mu jt fr) = - kap * mu * gN mu N T /\
+  exists c, 0 <= c /\ c * T = kap * gT mu N T /\
+    forall jy, length jy = length rows ->
+      tang_lin adr0 j0 D0 mu jt fr 0 rows jy = - c * (dotl (uv_pairs rows jy) - TT).
+Proof.
+  intros Hrows jt fr TT N T.
+  assert (ETT : @block_TT R ScalarR jt fr = TT) by apply block_TT_sum.
+  assert (HTT : 0 <= TT) by apply sumsq_nonneg.
+  assert (ET : Tof TT = T).
+  { unfold Tof, T. destruct (Rleb TT 0) eqn:E; [|reflexivity]. apply Rleb_true in E.
+    replace TT with 0 by lra. symmetry. apply sqrt_0. }
+  assert (HT : 0 <= T) by apply sqrt_pos.
+  assert (HT2 : T * T = TT) by (apply sqrt_sqrt; exact HTT).
+  assert (Hid : forall k : nat, (adr0 + 1 + Z.of_nat k)%Z <> adr0) by (intros; lia).
+  assert (Hk : 0 < kap) by (unfold kap; apply Rdiv_lt_0_compat; nra).
+  assert (HDk : forall jk fk Dk, In (jk, fk, Dk) rows -> Dk = kap * (fk * fk)).
+  { intros jk fk Dk Hin. destruct (Hrows jk fk Dk Hin) as [_ E]. unfold kap.
+    apply Rmult_eq_reg_r with (mu * mu); [rewrite E; field; lra | nra]. }
+  unfold block_cost. fold jt fr. unfold block_row_normal, block_row_tangent. sR. rewrite ETT.
+  destruct (Nat.eq_dec (zone mu N T) 0) as [Z0|Z0].
+  { (* top *)
+    assert (Zt : top_zone mu (j0 * mu) (Tof TT)) by (rewrite ET; apply zone_top; assumption).
+    rewrite elliptic_top_zero by exact Zt.
+    rewrite (tang_cost_form adr0 j0 D0 mu jt fr 0).
+    2:{ intros. unfold block_row_tangent. sR. rewrite ETT, elliptic_top_zero by exact Zt. unfold r_cost; simpl; ring. }
+    unfold psi, gN, gT. rewrite Z0. unfold r_cost, r_force; simpl. repeat split; try ring.
+    exists 0. repeat split; try lra.
+    intros jy Hl. rewrite (tang_lin_form adr0 j0 D0 mu jt fr 0); [ring | | exact Hl].
+    intros. unfold block_row_tangent. sR. rewrite ETT, elliptic_top_zero by exact Zt. unfold r_force; simpl; ring. }
+  assert (Zt : ~ top_zone mu (j0 * mu) (Tof TT)) by (rewrite ET; intro H; apply Z0; apply zone_top; assumption).
+  destruct (Nat.eq_dec (zone mu N T) 1) as [Z1|Z1].
+  { (* bottom *)
+    assert (Zb : bottom_zone mu (j0 * mu) (Tof TT)) by (rewrite ET; apply zone_bottom; try assumption; rewrite <- ET; exact Zt).
+    rewrite elliptic_bottom_quadratic by assumption.
+    rewrite (tang_cost_form adr0 j0 D0 mu jt fr (1/2 * kap)).
+    2:{ intros k jk fk Dk Hin. unfold block_row_tangent. sR. rewrite ETT, elliptic_bottom_quadratic by assumption.
+        unfold r_cost; simpl. rewrite (HDk jk fk Dk Hin). ring. }
+    unfold psi, gN, gT. rewrite Z1. unfold r_cost, r_force; simpl. fold TT. rewrite <- HT2.
+    repeat split.
+    - unfold N, kap. field. lra.
+    - unfold N, kap. field. lra.
+    - exists kap. repeat split; try lra.
+      intros jy Hl. rewrite (tang_lin_form adr0 j0 D0 mu jt fr kap); [fold TT; rewrite HT2; ring | | exact Hl].
+      intros k jk fk Dk Hin. unfold block_row_tangent. sR. rewrite ETT, elliptic_bottom_quadratic by assumption.
+      unfold r_force; simpl. rewrite (HDk jk fk Dk Hin). ring. }
+  (* middle *)
+  assert (Zb : ~ bottom_zone mu (j0 * mu) (Tof TT)).
+  { rewrite ET. intro H. apply Z1. apply zone_bottom; try assumption. rewrite <- ET; exact Zt. }
+  assert (Z2 : zone mu N T = 2%nat).
+  { unfold zone in *. destruct (Rle_dec (mu * T) N); [contradiction Z0; reflexivity|].
+    destruct (Rle_dec (mu * N + T) 0); [contradiction Z1; reflexivity | reflexivity]. }
+  destruct (middle_zone_facts mu (j0 * mu) (Tof TT) (Tof_nonneg TT) Zt Zb) as (HTp & Hn & Hb).
+  rewrite ET in HTp, Hn, Hb.
+  rewrite elliptic_middle_normal by assumption. rewrite ET.
+  rewrite (tang_cost_form adr0 j0 D0 mu jt fr 0).
+  2:{ intros k jk fk Dk Hin. unfold block_row_tangent. sR. rewrite ETT, elliptic_middle_tangent by (try assumption; apply Hid).
+      unfold r_cost; simpl; ring. }
+  unfold psi, gN, gT. rewrite Z2. unfold r_cost, r_force; simpl. fold N.
+  set (F := - dm_of D0 mu * (N - mu * T) * mu).
+  assert (EF : F = kap * (- mu * (N - mu * T) / (1 + mu * mu))) by (unfold F, dm_of, kap; field; nra).
+  repeat split.
+  - rewrite Rmult_0_l, Rplus_0_r. unfold dm_of, kap. field. nra.
+  - unfold F, dm_of, kap. field. nra.
+  - exists (F / T). repeat split.
+    + apply Rmult_le_pos; [| left; apply Rinv_0_lt_compat; exact HTp].
+      rewrite EF. apply Rmult_le_pos; [lra|]. assert (HnN : N < mu * T) by exact Hn.
+      apply Rmult_le_pos; [clear - HnN Hmu; nra | left; apply Rinv_0_lt_compat; nra].
+    + rewrite <- EF. field. lra.
+    + intros jy Hl. rewrite (tang_lin_form adr0 j0 D0 mu jt fr (F / T)); [fold TT; ring | | exact Hl].
+      intros k jk fk Dk Hin. unfold block_row_tangent. sR. rewrite ETT, elliptic_middle_tangent by (try assumption; apply Hid).
+      rewrite ET. unfold r_force; simpl. fold N F. field. lra.
+Qed.
+
+(* first-order convexity of the whole contact block: x = (j0, rows) and y = (j0', rows with the tangent jarefs jy) *)
+Theorem elliptic_block_convex j0 j0' rows jy :
+  rows_ok rows -> length jy = length rows ->
+  let jt := map (fun r => fst (fst r)) rows in
+  let fr := map (fun r => snd (fst r)) rows in
+  block_cost adr0 j0 D0 mu rows
+    - r_force (@block_row_normal R ScalarR adr0 j0 D0 mu jt fr) * (j0' - j0)
+    - tang_lin adr0 j0 D0 mu jt fr 0 rows jy
+  <= block_cost adr0 j0' D0 mu (rows_with rows jy).
+Proof.
+  intros Hrows Hl jt fr.
+  assert (Hrows' : rows_ok (rows_with rows jy)).
+  { intros jk fk Dk Hin. destruct (rows_with_in _ _ _ _ _ Hin) as [j Hj]. exact (Hrows j fk Dk Hj). }
+  destruct (block_forms j0 rows Hrows) as (Cx & Fx & c & Hc & HcT & Lx). fold jt fr in Fx, Lx.
+  destruct (block_forms j0' (rows_with rows jy) Hrows') as (Cy & _).
+  rewrite Cx, Cy, Fx, (Lx jy Hl).
+  set (TTx := sumsq (map (fun r => row_j r * row_f r) rows)) in *.
+  set (TTy := sumsq (map (fun r => row_j r * row_f r) (rows_with rows jy))) in *.
+  set (Tx := sqrt TTx) in *. set (Ty := sqrt TTy) in *.
+  assert (HTx : 0 <= Tx) by apply sqrt_pos. assert (HTy : 0 <= Ty) by apply sqrt_pos.
+  assert (HTx2 : Tx * Tx = TTx) by (apply sqrt_sqrt, sumsq_nonneg).
+  pose proof (cauchy_schwarz (uv_pairs rows jy)) as CS. rewrite uv_fst, uv_snd in CS by exact Hl.
+  fold TTx TTy Tx Ty in CS.
+  pose proof (psi_convex mu (j0 * mu) Tx (j0' * mu) Ty Hmu HTx HTy) as PC.
+  assert (Hk : 0 < kap) by (unfold kap; apply Rdiv_lt_0_compat; nra).
+  set (uv := dotl (uv_pairs rows jy)) in *.
+  (* c (uv - Tx^2) <= c Tx (Ty - Tx) = kap gT (Ty - Tx) *)
+  assert (K1 : c * (uv - TTx) <= kap * gT mu (j0 * mu) Tx * (Ty - Tx)).
+  { rewrite <- HcT, <- HTx2. nra. }
+  nra.
+Qed.
+End Block.
+
+(* KKT certificate for a constraint cost S of the whole jaref vector y (y_r = J_r . a - aref_r), not
+   necessarily a sum of per-row functions: F y is the force vector, convexity in first-order form *)
+Definition gaussS (n m : nat) (M J : nat -> nat -> R) (aref : nat -> R) (S : (nat -> R) -> R) (a0 a : nat -> R) : R :=
+  1/2 * dot n (vsubf a a0) (mv n M (vsubf a a0)) + S (fun r => dot n (J r) a - aref r).
+
+Theorem kkt_certificate_general
+  (n m : nat) (M J : nat -> nat -> R) (aref a0 : nat -> R)
+  (S : (nat -> R) -> R) (F : (nat -> R) -> nat -> R) (a : nat -> R) :
+  (forall x y, dot n x (mv n M y) = dot n y (mv n M x)) ->
+  (forall x, 0 <= dot n x (mv n M x)) ->
+  (forall y y', S y - sumn m (fun r => F y r * (y' r - y r)) <= S y') ->
+  (forall i, (i < n)%nat ->
+     mv n M (vsubf a a0) i = JTf m J (F (fun r => dot n (J r) a - aref r)) i) ->
+  forall b, gaussS n m M J aref S a0 a <= gaussS n m M J aref S a0 b.
+Proof.
+  intros Hsym Hpsd Hconv Hstat b.
+  set (d := vsubf b a). set (e := vsubf a a0).
+  set (ya := fun r => dot n (J r) a - aref r). set (yb := fun r => dot n (J r) b - aref r).
+  set (fr := F ya).
+  assert (Eb : forall i, vsubf b a0 i = e i + d i) by (intros; unfold e, d, vsubf; ring).
+  unfold gaussS. fold e ya yb.
+  assert (Q : dot n (vsubf b a0) (mv n M (vsubf b a0))
+              = dot n e (mv n M e) + 2 * dot n d (mv n M e) + dot n d (mv n M d)).
+  { rewrite (dot_ext n (vsubf b a0) (fun i => e i + d i) (mv n M (vsubf b a0)) (fun i => mv n M e i + mv n M d i)).
+    2:{ intros; apply Eb. }
+    2:{ intros. unfold mv. rewrite <- sumn_plus. apply sumn_ext. intros. rewrite Eb. ring. }
+    rewrite dot_plus_l, !dot_plus_r. rewrite (Hsym e d). ring. }
+  rewrite Q.
+  assert (St : dot n d (mv n M e) = sumn m (fun r => fr r * dot n (J r) d)).
+  { unfold dot at 1. rewrite (sumn_ext n _ (fun i => sumn m (fun r => d i * (J r i * fr r)))).
+    2:{ intros i Hi. unfold e. rewrite Hstat by exact Hi. unfold JTf. rewrite <- sumn_scal. reflexivity. }
+    rewrite sumn_swap. apply sumn_ext. intros r Hr. unfold dot. rewrite <- sumn_scal. apply sumn_ext. intros. ring. }
+  pose proof (Hconv ya yb) as C.
+  rewrite (sumn_ext m _ (fun r => fr r * dot n (J r) d)) in C.
+  2:{ intros r Hr. unfold fr. f_equal. unfold ya, yb.
+      assert (dot n (J r) b = dot n (J r) a + dot n (J r) d).
+      { rewrite <- dot_plus_r. apply dot_ext; intros; [reflexivity | unfold d, vsubf; ring]. }
+      lra. }
+  pose proof (Hpsd d). lra.
+Qed.
+
+(* ---------- systems made of simple rows and elliptic contact blocks ---------- *)
+Inductive term : Type :=
+| TRow (r : nat) (ie ifr : bool) (D fl : R)            (* equality / friction / limit / pyramidal row r *)
+| TBlock (p : nat) (D0 mu : R) (fD : list (R * R)).    (* elliptic contact: normal row p, tangent rows p+1.. with (friction, D) *)
+
+Fixpoint rows_from (y : nat -> R) (q : nat) (fD : list (R * R)) : list (R * R * R) :=
+  match fD with nil => nil | (f, D) :: r => (y q, f, D) :: rows_from y (S q) r end.
+
+Fixpoint tforce (j0 D0 mu : R) (jt fr : list R) (k q : nat) (rows : list (R*R*R)) (r : nat) : R :=
+  match rows with
+  | nil => 0
+  | (jk, fk, Dk) :: rest =>
+      (if Nat.eqb r q then r_force (@block_row_tangent R ScalarR 0 j0 D0 mu jt fr k jk fk Dk) else 0)
+      + tforce j0 D0 mu jt fr (S k) (S q) rest r
+  end.
+
+Definition term_cost (t : term) (y : nat -> R) : R :=
+  match t with
+  | TRow r ie ifr D fl => row_cost ie ifr D fl (y r)
+  | TBlock p D0 mu fD => block_cost 0 (y p) D0 mu (rows_from y (S p) fD)
+  end.
+Definition term_force (t : term) (y : nat -> R) (r : nat) : R :=
+  match t with
+  | TRow r0 ie ifr D fl => if Nat.eqb r r0 then row_force ie ifr D fl (y r0) else 0
+  | TBlock p D0 mu fD =>
+      let rows := rows_from y (S p) fD in
+      let jt := map (fun r => fst (fst r)) rows in
+      let fr := map (fun r => snd (fst r)) rows in
+      (if Nat.eqb r p then r_force (@block_row_normal R ScalarR 0 (y p) D0 mu jt fr) else 0)
+      + tforce (y p) D0 mu jt fr 0 (S p) rows r
+  end.
+Definition term_ok (m : nat) (t : term) : Prop :=
+  match t with
+  | TRow r ie ifr D fl => (r < m)%nat /\ 0 < D /\ 0 <= fl
+  | TBlock p D0 mu fD => (p + length fD < m)%nat /\ 0 < D0 /\ 0 < mu /\
+                         forall f D, In (f, D) fD -> 0 < f /\ D * (mu * mu) = D0 * (f * f)
+  end.
+
+Lemma sumn_zero m g : (forall r, g r = 0) -> sumn m g = 0.
+Proof. intros H. induction m; simpl; [reflexivity|]. rewrite IHm, H. ring. Qed.
+
+Lemma sumn_single m r0 c g : (r0 < m)%nat ->
+  sumn m (fun r => (if Nat.eqb r r0 then c else 0) * g r) = c * g r0.
+Proof.
+  induction m; intros H; [lia|]. simpl.
+  destruct (Nat.eq_dec m r0) as [->|ne].
+  - rewrite Nat.eqb_refl. rewrite (sumn_ext r0 _ (fun _ => 0)).
+    + rewrite sumn_zero by reflexivity. ring.
+    + intros i Hi. replace (Nat.eqb i r0) with false by (symmetry; apply Nat.eqb_neq; lia). ring.
+  - rewrite IHm by lia. replace (Nat.eqb m r0) with false by (symmetry; apply Nat.eqb_neq; lia). ring.
+Qed.
+
+Lemma rows_with_from y y' q fD :
+  rows_with (rows_from y q fD) (map y' (seq q (length fD))) = rows_from y' q fD.
+Proof. revert q. induction fD as [|[f D] fD IH]; intros q; simpl; [reflexivity|]. rewrite IH. reflexivity. Qed.
+
+Lemma rows_from_ok mu D0 y q fD :
+  (forall f D, In (f, D) fD -> 0 < f /\ D * (mu * mu) = D0 * (f * f)) -> rows_ok D0 mu (rows_from y q fD).
+Proof.
+  revert q. induction fD as [|[f D] fD IH]; intros q H jk fk Dk Hin; simpl in Hin; [contradiction|].
+  destruct Hin as [E|Hin]; [inversion E; subst; apply H; left; reflexivity|].
+  apply (IH (S q)) with (jk := jk); [intros; apply H; right; assumption | exact Hin].
+Qed.
+
+Lemma tforce_sum m j0 D0 mu jt fr y y' fD : forall k q,
+  (q + length fD <= m)%nat ->
+  sumn m (fun r => tforce j0 D0 mu jt fr k q (rows_from y q fD) r * (y' r - y r))
+  = tang_lin 0 j0 D0 mu jt fr k (rows_from y q fD) (map y' (seq q (length fD))).
+Proof.
+  induction fD as [|[f D] fD IH]; intros k q Hq; simpl.
+  - apply sumn_zero. intros; ring.
+  - simpl in Hq.
+    rewrite (sumn_ext m _ (fun r =>
+       (if Nat.eqb r q then r_force (@block_row_tangent R ScalarR 0 j0 D0 mu jt fr k (y q) f D) else 0) * (y' r - y r)
+       + tforce j0 D0 mu jt fr (S k) (S q) (rows_from y (S q) fD) r * (y' r - y r))) by (intros; ring).
+    rewrite sumn_plus, sumn_single by lia. rewrite IH by lia. reflexivity.
+Qed.
+
+Lemma term_convex m t y y' : term_ok m t ->
+  term_cost t y - sumn m (fun r => term_force t y r * (y' r - y r)) <= term_cost t y'.
+Proof.
+  destruct t as [r ie ifr D fl | p D0 mu fD]; simpl; intros Hok.
+  - destruct Hok as (Hr & HD & Hf). rewrite sumn_single by exact Hr.
+    apply cost_convex_rowwise; assumption.
+  - destruct Hok as (Hp & HD & Hmu & HfD).
+    set (rows := rows_from y (S p) fD).
+    set (jt := map (fun r => fst (fst r)) rows). set (fr := map (fun r => snd (fst r)) rows).
+    rewrite (sumn_ext m _ (fun r =>
+       (if Nat.eqb r p then r_force (@block_row_normal R ScalarR 0 (y p) D0 mu jt fr) else 0) * (y' r - y r)
+       + tforce (y p) D0 mu jt fr 0 (S p) rows r * (y' r - y r))) by (intros; ring).
+    rewrite sumn_plus, sumn_single by lia. unfold rows at 2. rewrite tforce_sum by lia. fold rows.
+    assert (L : length (map y' (seq (S p) (length fD))) = length rows).
+    { unfold rows. rewrite map_length, seq_length. clear. generalize (S p). induction fD as [|[f D] fD IH]; intros; simpl; [reflexivity | f_equal; apply IH]. }
+    pose proof (elliptic_block_convex 0 D0 mu HD Hmu (y p) (y' p) rows (map y' (seq (S p) (length fD)))
+                  (rows_from_ok mu D0 y (S p) fD HfD) L) as B.
+    cbv zeta in B. fold jt fr in B.
+    replace (rows_with rows (map y' (seq (S p) (length fD)))) with (rows_from y' (S p) fD) in B
+      by (symmetry; apply rows_with_from).
+    lra.
+Qed.
+
+Definition sys_cost (ts : list term) (y : nat -> R) : R := fold_right (fun t acc => term_cost t y + acc) 0 ts.
+Definition sys_force (ts : list term) (y : nat -> R) (r : nat) : R := fold_right (fun t acc => term_force t y r + acc) 0 ts.
+
+Lemma sys_convex m ts y y' : (forall t, In t ts -> term_ok m t) ->
+  sys_cost ts y - sumn m (fun r => sys_force ts y r * (y' r - y r)) <= sys_cost ts y'.
+Proof.
+  induction ts as [|t ts IH]; intros Hok; simpl.
+  - rewrite sumn_zero by (intros; ring). lra.
+  - rewrite (sumn_ext m _ (fun r => term_force t y r * (y' r - y r) + sys_force ts y r * (y' r - y r))) by (intros; ring).
+    rewrite sumn_plus.
+    pose proof (term_convex m t y y' (Hok t (or_introl eq_refl))).
+    pose proof (IH (fun t' H' => Hok t' (or_intror H'))). lra.
+Qed.
+
+(* KKT certificate for any system of simple rows and elliptic contact blocks evaluated by the
+   translated _eval_constraint: stationarity implies global optimality of the Gauss cost *)
+Theorem kkt_certificate_system
+  (n m : nat) (M J : nat -> nat -> R) (aref a0 : nat -> R) (ts : list term) (a : nat -> R) :
+  (forall x y, dot n x (mv n M y) = dot n y (mv n M x)) ->
+  (forall x, 0 <= dot n x (mv n M x)) ->
+  (forall t, In t ts -> term_ok m t) ->
+  (forall i, (i < n)%nat ->
+     mv n M (vsubf a a0) i = JTf m J (sys_force ts (fun r => dot n (J r) a - aref r)) i) ->
+  forall b, gaussS n m M J aref (sys_cost ts) a0 a <= gaussS n m M J aref (sys_cost ts) a0 b.
+Proof.
+  intros Hs Hp Hok Hst. apply (kkt_certificate_general n m M J aref a0 (sys_cost ts) (sys_force ts) a Hs Hp); [|exact Hst].
+  intros y y'. apply sys_convex. exact Hok.
+Qed.
+
 (* non-vacuity witnesses *)
 Lemma Tof_1 : Tof 1 = 1.
 Proof. unfold Tof. destruct (Rleb 1 0) eqn:E; [apply Rleb_true in E; lra | apply sqrt_1]. Qed.
@@ -690,6 +1152,15 @@ Proof.
   - nra.
   - unfold row_force. rewrite ec_limit. unfold r_force.
     destruct (Rleb 0 (0 + 1 * (-2 / 5) - 0)) eqn:E; [apply Rleb_true in E; lra | simpl; lra].
+Qed.
+
+Lemma system_example :
+  let ts := [TRow 0 false false 3 0; TBlock 1 2 (1/2) [(1/2, 2); (1/2, 2)]] in
+  forall t, In t ts -> term_ok 4 t.
+Proof.
+  cbv zeta. intros t [<-|[<-|[]]]; simpl.
+  - repeat split; try lia; lra.
+  - repeat split; try lia; try lra; destruct H as [H|[H|[]]]; inversion H; lra.
 Qed.
 
 (* ================= C06: elliptic middle zone, derivatives (Coquelicot auto_derive) ================= *)
